@@ -25,11 +25,12 @@ type Conn struct {
 }
 
 func newServer(s *Swarm, netConn net.Conn) (*Conn, error) {
-	var pubKey ssh.PublicKey
+	// The callback runs for every key the client offers, also for keys it never proves it holds.
+	// The permissions returned for a key are handed back only once that key has authenticated.
+	const pubKeyExt = "sshswarm-pubkey"
 	config := &ssh.ServerConfig{
 		PublicKeyCallback: func(md ssh.ConnMetadata, pk ssh.PublicKey) (*ssh.Permissions, error) {
-			pubKey = pk
-			return &ssh.Permissions{}, nil
+			return &ssh.Permissions{Extensions: map[string]string{pubKeyExt: string(pk.Marshal())}}, nil
 		},
 	}
 	config.AddHostKey(s.signer)
@@ -38,7 +39,13 @@ func newServer(s *Swarm, netConn net.Conn) (*Conn, error) {
 	if err != nil {
 		return nil, err
 	}
-	if pubKey == nil {
+	if sconn.Permissions == nil {
+		sconn.Close()
+		return nil, errors.New("pubkey not set after connection")
+	}
+	pubKey, err := ssh.ParsePublicKey([]byte(sconn.Permissions.Extensions[pubKeyExt]))
+	if err != nil {
+		sconn.Close()
 		return nil, errors.New("pubkey not set after connection")
 	}
 
